@@ -34,6 +34,9 @@ TERMS = {
     'UserBase': sc.BASE_MODES['UserBase'],
     'Syntax': sc.MODES['Syntax'],
     'CloseStdout': "import sys\nprint('x')\nsys.stdout.close()",
+    # the student's exception runs student code again while pedal reports it -- and that code interrupts
+    'StrRaisesKI': "class K(Exception):\n    def __str__(self):\n        raise KeyboardInterrupt()\nraise K()",
+    'StrRaisesExit': "class Q(Exception):\n    def __str__(self):\n        raise SystemExit(3)\nraise Q()",
 }
 ENTRIES = ['run-code', 'call', 'evaluate', 'import']
 TRACERS = ['none', 'native', 'calls']
@@ -70,7 +73,9 @@ AMBIENT = {None: None, 'A': _tool_a, 'B': _tool_b}
 
 
 CONFIGS = {'block-time': lambda sb: sb.block_module('time'), 'block-os': lambda sb: sb.block_module('os'),
-           'mock-len': lambda sb: sb.mock_function('len', lambda x: 42), 'clear-mocks': lambda sb: sb.clear_mocks()}
+           'mock-len': lambda sb: sb.mock_function('len', lambda x: 42), 'clear-mocks': lambda sb: sb.clear_mocks(),
+           # an instructor mocking a module pedal itself patches: starting the next execution fails half-way
+           'mock-sys': lambda sb: sb.mock_module('sys', {'flag': 1}, 'sys')}
 
 
 def _do(op):
@@ -111,7 +116,7 @@ def _ops(tier):
         ops.append(('config', c, 'none', False))
     # threaded variants (real thread, generous limit: the student code ends at once)
     for e in ('run-code', 'call'):
-        for t in ('normal', 'ValueError', 'sys.exit'):
+        for t in ('normal', 'ValueError', 'sys.exit', 'KeyboardInterrupt', 'StrRaisesKI', 'StrRaisesExit'):
             ops.append((e, t, 'none', True))
     return ops
 
@@ -152,6 +157,11 @@ def _probe(ctx, hist):
     try:
         sc.sb_cmds.run(PROBE, filename='answer.py')
     except BaseException as e:   # noqa
+        if any(op[:2] == ('config', 'mock-sys') for op in hist):
+            # the instructor replaced `sys` and never undid it: every execution fails to start, by request;
+            # what is judged is that each such failure leaves nothing behind
+            _check_after(ctx, hist + [('probe', 'fails to start', 'none', False)], snap, type(e).__name__)
+            return
         ctx.fail({'symptom': 'probe execution raised', 'exception': type(e).__name__}, history=hist)
         snap.force()
         return
@@ -239,7 +249,8 @@ def _timeout_phase():
     runs only when the grader is done, or never: blocked student).  Only the C05 clauses are judged here."""
     from checks import c14
     inner = c14.make_body(c14._sub('busy', 'printing', 'block', 'slow_error', 'close_then_spin'), 40, True)
-    keep = ('patch state not clean', 'exception escapes')
+    # (C05's last clause: "... so that later executions capture output normally")
+    keep = ('patch state not clean', 'exception escapes', 'later execution altered', 'abandoned thread changed the captured output')
 
     def body(ctx):
         # one deviation per schedule: a pre-emption, or pedal failing while it records the output of the
